@@ -28,13 +28,19 @@ const (
 
 func init() {
 	Registry["C20"] = Spec{
-		Pkgs: map[string][]string{"v2": {"grpcds"}},
+		Pkgs: map[string][]string{"v2": {"grpcds", "gqlds"}},
 		Run:  runC20,
 		Explanation: "Decides the structural half of 'the gRPC datasource answers with a consistent projection': the object-position and list-position scalar converters of the response builder cover the same protobuf kinds, which are the kinds the compiler supports (dataTypeMap, which is the identity on the numeric kind), and the request-side scalar converter covers the scalar data types and is reached only with kinds it converts (enum/message routed away at every call site — object, repeated and wrapper-list position alike); " +
 			"every astvisitor callback implemented by the three planner visitors is registered; every path through one field of marshalResponseJSON and through every arm of the converters writes the field (null / [] / value), so no selected key is silently absent; every site that writes a response key uses RPCField.AliasOrPath of the field being rendered and the helpers pass that key through; " +
 			"on the planning side a field's name and alias are taken from the same operation field wherever a response field is built, the duplicate check uses the same (name, alias) identity as the construction, fragment fields are de-duplicated by the response key, and the merge path of resolver / @requires calls ends in the response key; every call kind is compiled, and a call is merged by path exactly when its plan carries a response path; " +
 			"the code reachable from DataSource.Load never stores into plan-owned memory (no assignment through plan pointers, no append onto a slice that aliases the plan), so concurrent requests on one cached plan cannot change each other's shape; both consumers of the plan test the list wrapper before the optional-scalar wrapper (a nullable scalar list satisfies both predicates). It does not decide the value-level equality of responses under reformulation.",
 		Mutants: []Mutant{
+			{Name: "an unpopulated scalar field counts as absent (seeded change C20-2)", File: "v2/pkg/engine/datasource/grpc_datasource/compiler.go", Rule: "C20-R17", Key: "RPCCompiler.getMessageField/presence-only-where-tracked",
+				Old: "\tfd := message.Descriptor().Fields().ByName(protoref.Name(fieldName))\n\tif fd == nil {\n", New: "\tfd := message.Descriptor().Fields().ByName(protoref.Name(fieldName))\n\tif fd == nil || !message.Has(fd) {\n"},
+			{Name: "the gRPC exemption from minification is decided when the minifier is enabled, not when it is used (seeded change C20-13)", File: "v2/pkg/engine/datasource/graphql_datasource/graphql_datasource.go", Rule: "C20-R16", Key: "Planner.printOperation/minify-only-when-not-grpc",
+				Old: "if p.minifier != nil && !p.config.IsGRPC() && len(rawOperationBytes) > 140 {", New: "if p.minifier != nil && len(rawOperationBytes) > 140 {"},
+			{Name: "the dependency graph is keyed by the position of a call, not by its id (seeded changes C20-1, C20-12)", File: "v2/pkg/engine/datasource/grpc_datasource/fetch.go", Rule: "C20-R15", Key: "NewDependencyGraph/keyed-by-call-id",
+				Old: "\tfor _, call := range executionPlan.Calls {\n\t\tgraph.nodes[call.ID] = call.DependentCalls\n", New: "\tfor index, call := range executionPlan.Calls {\n\t\tgraph.nodes[index] = call.DependentCalls\n"},
 			{Name: "a composite field's definition is looked up by the alias (positive control of the response-name taint rule)", File: "v2/pkg/engine/datasource/grpc_datasource/execution_plan.go", Rule: "C20-R14", Key: "schema-lookup-by-schema-name:fieldDefinitionRefForType",
 				Old: "fieldDefRef := r.fieldDefinitionRefForType(r.operation.FieldNameString(fieldRef), fragmentSelection.typeName)", New: "fieldDefRef := r.fieldDefinitionRefForType(r.operation.FieldAliasOrNameString(fieldRef), fragmentSelection.typeName)"},
 			{Name: "field resolver context read without a kind test (reverts the F48 fix)", File: "v2/pkg/engine/datasource/grpc_datasource/execution_plan.go", Rule: "C20-R12", Key: "rpcPlanningContext.getFieldsFromFieldResolverDirective/partial-value-accessor-under-kind-test",
@@ -113,6 +119,9 @@ func runC20(r *fw.Run) {
 		r.Rule("C20-R13", "in the gRPC planner and compiler the ref of an ast.Value is handed to an accessor of kind K only where the value's kind is known to be K")
 		nKR := kindRefAgreement(r, "C20-R13", []string{"grpcds"}, nil)
 		r.Note("C20-R13: %d kind-specific uses of a value's ref in grpc_datasource", nKR)
+		c20DependencyGraphKeyedByCallID(r)
+		c20NoMinifierForGRPC(r)
+		c20PresenceOnlyWhereTracked(r)
 		r.Rule("C20-R14", "in the gRPC planner a response name (alias or name) never reaches a lookup keyed by the schema-side field name")
 		nRN := responseNamesNeverReachSchemaLookups(r, "C20-R14", []string{"grpcds"})
 		r.Expect("C20-R14", "schema-side field name arguments in grpc_datasource", nRN, 1)
@@ -1742,4 +1751,183 @@ func c20LeaveFieldPopsPath(r *fw.Run) {
 		in.Run(nil)
 	}
 	r.Expect("C20-R11", "exits of LeaveField in visitors that own a fieldPath", n, 6)
+}
+
+// c20DependencyGraphKeyedByCallID (R15): RPCCall.DependentCalls holds the ids of the calls a call waits for, and the
+// scheduler follows them as indices into DependencyGraph.nodes / fetches. The planner appends calls in the order it
+// meets them, which is not the order of their ids (a nested resolver is planned before the next root field). Writer and
+// reader agree only if the graph is filled under the call's ID: every element write of DependencyGraph.nodes / .fetches
+// uses a key that derives from RPCCall.ID, and FetchItem.ID is fed from RPCCall.ID — never from the position in Calls.
+func c20DependencyGraphKeyedByCallID(r *fw.Run) {
+	p := r.Prog
+	r.Rule("C20-R15", "the gRPC dependency graph is filled under the id of each call (element writes of DependencyGraph.nodes / fetches and FetchItem.ID derive from RPCCall.ID): its readers follow DependentCalls, which hold ids")
+	n := 0
+	for _, fi := range p.Funcs("grpcds") {
+		info := fi.Info()
+		var d *localDeriver
+		fromCallID := func(e ast.Expr) bool {
+			if d == nil {
+				d = newLocalDeriver(fi)
+			}
+			return d.Derives(e, func(x ast.Expr) bool { return fw.IsFieldSel(info, x, "grpcds", "RPCCall", "ID") })
+		}
+		fw.WalkAll(fi.Decl.Body, func(nd ast.Node) bool {
+			switch x := nd.(type) {
+			case *ast.AssignStmt:
+				for _, l := range x.Lhs {
+					ix, ok := ast.Unparen(l).(*ast.IndexExpr)
+					if !ok {
+						continue
+					}
+					which := ""
+					for _, f := range []string{"nodes", "fetches"} {
+						if fw.IsFieldSel(info, ix.X, "grpcds", "DependencyGraph", f) {
+							which = f
+						}
+					}
+					if which == "" {
+						continue
+					}
+					n++
+					r.Check(fromCallIDSel(info, ix.Index) || fromCallID(ix.Index), "C20-R15", fi.Name()+"/keyed-by-call-id:"+which, p.Pos(ix.Pos()), "the element of DependencyGraph."+which+" written in "+fi.Name()+" is addressed by the id of the call",
+						"DependencyGraph."+which+" is filled under a key that does not derive from RPCCall.ID (the position in Calls?): DependentCalls refer to ids, so with two resolver fields, or a nested resolver before another root field, a call waits for — and takes its context from — the wrong call")
+				}
+			case *ast.CompositeLit:
+				if tv, ok := info.Types[x]; !ok || !fw.TypeIs(tv.Type, "grpcds", "FetchItem") {
+					return true
+				}
+				for _, el := range x.Elts {
+					kv, ok := el.(*ast.KeyValueExpr)
+					if !ok {
+						continue
+					}
+					if k, isID := kv.Key.(*ast.Ident); isID && k.Name == "ID" {
+						n++
+						r.Check(fromCallIDSel(info, kv.Value) || fromCallID(kv.Value), "C20-R15", fi.Name()+"/keyed-by-call-id:FetchItem.ID", p.Pos(kv.Pos()), "FetchItem.ID built in "+fi.Name()+" is the id of the call",
+							"FetchItem.ID is not fed from RPCCall.ID: results are stored and looked up under a number that DependentCalls do not refer to")
+					}
+				}
+			}
+			return true
+		})
+	}
+	r.Expect("C20-R15", "writes that key the dependency graph", n, 3)
+}
+
+func fromCallIDSel(info *types.Info, e ast.Expr) bool {
+	return fw.IsFieldSel(info, ast.Unparen(e), "grpcds", "RPCCall", "ID")
+}
+
+// c20NoMinifierForGRPC (R16): the gRPC data source compiles the upstream operation the GraphQL planner prints; the
+// minifier rewrites repeated selection sets into generated fragments, which the gRPC planner does not resolve (fields
+// behind a minifier fragment are missing from the compiled call, i.e. from the answer). Whether a planner instance serves
+// a gRPC data source is known from its configuration, which is set when the planner is registered — after the factory may
+// already have enabled the minifier. The exemption therefore has to be decided where the minifier is used: every call of
+// Minifier.Minify in the GraphQL planner is dominated by a false outcome of Configuration.IsGRPC().
+func c20NoMinifierForGRPC(r *fw.Run) {
+	p := r.Prog
+	r.Rule("C20-R16", "every call of astminify.Minifier.Minify in the GraphQL data source planner is dominated by a false outcome of Configuration.IsGRPC() (decided at the point of use, where the configuration is known)")
+	n := 0
+	for _, fi := range p.Funcs("gqlds") {
+		info := fi.Info()
+		has := false
+		isMinify := func(c *ast.CallExpr) bool {
+			fn := fw.Callee(info, c)
+			return fn != nil && fn.Name() == "Minify" && fn.Pkg() != nil && strings.HasSuffix(fn.Pkg().Path(), "/astminify")
+		}
+		fw.WalkAll(fi.Decl.Body, func(nd ast.Node) bool {
+			if c, ok := nd.(*ast.CallExpr); ok && isMinify(c) {
+				has = true
+			}
+			return true
+		})
+		if !has {
+			continue
+		}
+		in := fw.NewInterp(fi)
+		in.H = fw.Hooks{
+			Cond: func(e ast.Expr, branch bool, st *fw.State) {
+				op, leaves := fw.NNF(info, e, branch)
+				if op != "atom" && op != "and" {
+					return
+				}
+				for _, a := range leaves {
+					if a.Kind != "False" {
+						continue
+					}
+					if c, isCall := ast.Unparen(a.X).(*ast.CallExpr); isCall {
+						if fn := fw.Callee(info, c); fn != nil && fn.Name() == "IsGRPC" {
+							st.Set("not-grpc")
+						}
+					}
+				}
+			},
+			Node: func(nd ast.Node, st *fw.State) {
+				c, ok := nd.(*ast.CallExpr)
+				if !ok || !in.Final() || !isMinify(c) {
+					return
+				}
+				n++
+				r.Check(st.Must("not-grpc"), "C20-R16", fi.Name()+"/minify-only-when-not-grpc", p.Pos(c.Pos()), "the upstream operation is minified in "+fi.Name()+" only where the configuration is known not to be a gRPC one",
+					"Minify is reachable for a gRPC configuration: the compiled gRPC call is built from an operation whose repeated selection sets were moved into generated fragments, and the fields behind them are missing from the answer")
+			},
+		}
+		in.Run(nil)
+	}
+	r.Expect("C20-R16", "uses of the subgraph operation minifier in the GraphQL planner", n, 1)
+}
+
+// c20PresenceOnlyWhereTracked (R17): protoreflect.Message.Has answers "is populated", which for a proto3 scalar without
+// explicit presence means "is not the zero value": "", 0, false and the first enum value are indistinguishable from unset.
+// Treating !Has(fd) as "the field is absent" therefore drops legitimate zero values (a context field that is 0 or "" for
+// some items of a list shifts or fails the resolver call for them). In the gRPC data source Has may be asked only of a
+// field whose descriptor tracks presence: every call of Message.Has is dominated by a true outcome of
+// FieldDescriptor.HasPresence(). (No such call exists today; the seeded mutant is the positive control.)
+func c20PresenceOnlyWhereTracked(r *fw.Run) {
+	p := r.Prog
+	r.Rule("C20-R17", "protoreflect.Message.Has is asked only of fields whose descriptor tracks presence (dominated by FieldDescriptor.HasPresence()): for a proto3 scalar 'not populated' is the zero value, not absence")
+	isProtoreflect := func(fn *types.Func, name string) bool {
+		return fn != nil && fn.Name() == name && fn.Pkg() != nil && strings.HasSuffix(fn.Pkg().Path(), "/protoreflect")
+	}
+	n := 0
+	for _, fi := range p.Funcs("grpcds") {
+		info := fi.Info()
+		has := false
+		fw.WalkAll(fi.Decl.Body, func(nd ast.Node) bool {
+			if c, ok := nd.(*ast.CallExpr); ok && isProtoreflect(fw.Callee(info, c), "Has") {
+				has = true
+			}
+			return true
+		})
+		if !has {
+			continue
+		}
+		in := fw.NewInterp(fi)
+		in.H = fw.Hooks{
+			Cond: func(e ast.Expr, branch bool, st *fw.State) {
+				op, leaves := fw.NNF(info, e, branch)
+				if op != "atom" && op != "and" {
+					return
+				}
+				for _, a := range leaves {
+					if c, isCall := ast.Unparen(a.X).(*ast.CallExpr); isCall && a.Kind == "True" && isProtoreflect(fw.Callee(info, c), "HasPresence") {
+						st.Set("tracks-presence")
+					}
+				}
+			},
+			Node: func(nd ast.Node, st *fw.State) {
+				c, ok := nd.(*ast.CallExpr)
+				if !ok || !in.Final() || !isProtoreflect(fw.Callee(info, c), "Has") {
+					return
+				}
+				n++
+				r.Check(st.Must("tracks-presence"), "C20-R17", fi.Name()+"/presence-only-where-tracked", p.Pos(c.Pos()), "Message.Has in "+fi.Name()+" is asked only where the field descriptor tracks presence",
+					"Message.Has is asked of a field that may be a proto3 scalar without presence: an unpopulated field is then the zero value, not an absent one — \"\", 0, false and the first enum value are dropped from the data handed to resolvers or rendered to the client")
+			},
+		}
+		in.Run(nil)
+	}
+	if n == 0 {
+		r.Pass("C20-R17", "no-presence-questions", "", "the gRPC data source never asks protoreflect.Message.Has (nothing to decide; the seeded mutant is the positive control)", false)
+	}
 }
